@@ -27,6 +27,8 @@ CLAIMED['C17'] = ("Bounded symbolic model checking of the atomic-replace primiti
          "Trusted: go/ssa, symgo, z3, os stubs, and the POSIX rename/fsync assumption that turns the call-order automaton into old-or-new atomicity; the real file system, crashes and concurrent readers are outside the claim.")
 CLAIMED['C01'] = ("Bounded symbolic model checking of the module lifecycle: gate predicates as lemmas over fully symbolic status/flag state, and the real prepare/start/stop/manage passes with goroutines, channels and contexts executed by the engine's scheduler over every DAG shape on <= 3 modules, every order of overlapping callbacks and every position of one failing (error/panic) callback; oracle on the recorded callback trace and final statuses.",
          "Trusted: go/ssa, symgo (sequentially consistent sync/atomic intrinsics, G1 yield-only scheduling), z3. Finer interleavings, >3 modules, >1 failure and the Start() wrapper are outside the claim.")
+CLAIMED['C15'] = ("Bounded symbolic model checking of the microtask scheduler and its accounting with the engine's goroutine scheduler: every variant x outcome leaves the global and per-module counters at their previous values, runs the function exactly once and returns its error (or a panic error); done() is idempotent; with threshold 2 and three concurrent medium/low submitters no more than 2 functions run at once in any order of the function bodies, counters return to zero and a later microtask is admitted.",
+         "Trusted: go/ssa, symgo (SC atomics, G1 yield-only scheduling), z3. Max-delay expiry, larger thresholds and finer interleavings are outside the claim.")
 NA = {}
 def check(pid):
     text, note = CLAIMED[pid]
